@@ -99,7 +99,7 @@ def cres(r, okf) -> str:
 def qv(o):
     """Canonical exact value [num, den] of a dyce outcome (bool/int/Fraction/exact float)."""
     f = Fraction(o)
-    return [f.numerator, f.denominator]
+    return [int(f.numerator), int(f.denominator)]     # int(): NumPy integer outcomes give NumPy numerators
 
 
 def to_frac(o) -> Fraction:
@@ -483,6 +483,9 @@ def main(pid: str, argv):
             classes[cl] = classes.get(cl, 0) + 1
             if mod.nontrivial(c, r):
                 nontrivial.add(case_key(c))
+            if '"NONJSON"' in json.dumps(r):
+                mism.append(i)       # an answer that is not a plain Python value cannot equal the model's
+                continue
             e = mod.coq_check(c, r)
             if e is None:
                 skipped += 1
